@@ -35,4 +35,7 @@ def run(ctx):
     solids.judge_stage(ctx, "bisect", ["c02-bisect"], {"panic", "interior", "bracket"}, judge="lattice/BisectJudge",
                        keyfn=lambda rec, clause: "%s:%s:%s" % (rec["site"], clause,
                                                               "converged" if rec["count"] >= 48 or rec["far"] else "coarse"))
+    # search refinement on decimal lattices (spacings 0.1, 0.3, 0.7, 0.05; box faces on multiples of the spacing)
+    solids.judge_stage(ctx, "search-decimal", ["c02-decimal", "n=%d" % (40 if quick else 600)], {"panic", "nonempty", "bracket"},
+                       judge="lattice/DecimalSearchJudge", keyfn=lambda rec, clause: "%s:decimal:%s" % (rec["site"], clause))
     ctx.extra["exhaustive"] = True
